@@ -13,6 +13,7 @@ import (
 
 	"google.golang.org/grpc"
 	"google.golang.org/grpc/codes"
+	"google.golang.org/grpc/metadata"
 	"google.golang.org/grpc/stats"
 	"google.golang.org/grpc/status"
 	"google.golang.org/protobuf/encoding/protojson"
@@ -68,6 +69,26 @@ func (s *statsProbe) HandleRPC(ctx context.Context, st stats.RPCStats) {
 		_ = v.Length + v.WireLength
 	case *stats.End:
 		_ = v.Error
+	case *stats.InHeader:
+		// The event belongs to the stats handler (grpc-go hands out copies): one that redacts or
+		// annotates what it was given must not change what the RPC handler sees.
+		scribble(v.Header)
+	case *stats.OutHeader:
+		scribble(v.Header)
+	case *stats.OutTrailer:
+		scribble(v.Trailer)
+	case *stats.InTrailer:
+		scribble(v.Trailer)
+	}
+}
+
+func scribble(md metadata.MD) {
+	for k := range md {
+		delete(md, k)
+	}
+	if md != nil {
+		md["x-audited-by-stats-handler"] = []string{"1"}
+		md["authorization"] = []string{"REDACTED"}
 	}
 }
 func (s *statsProbe) TagConn(ctx context.Context, i *stats.ConnTagInfo) context.Context { return ctx }
